@@ -225,7 +225,32 @@ def check_longname(case):
     return []
 
 
+def check_overflow(case):
+    """TOLERANT keeps two components in a base-datatype field (they are named after the datatype): every letter case of that
+    name designates those same children"""
+    from hl7apy import parser as P
+    v, s, fname, i, dt = case['v'], case['s'], case['fname'], case['i'], case['dt']
+    try:
+        seg = P.parse_segment(s + '|' * i + 'a^b', version=v, validation_level=TOL)
+        f = getattr(seg, fname)[0]
+        kids = [id(c) for c in f.children]
+        if len(kids) != 2:
+            return []
+        for spell in (f.children[0].name, f.children[0].name.lower(), f.children[0].name.capitalize()):
+            try:
+                got = [id(c) for c in getattr(f, spell)]
+            except Exception as e:
+                return [('overflowed-field-children-by-name-raises:%s' % type(e).__name__, '%s %s.%s holding a^b: .%s: %s' % (v, s, fname, spell, _exc(e)))]
+            if got != kids:
+                return [('overflowed-field-children-by-name-differ', '%s %s.%s holding a^b: .%s gives %d of 2 children' % (v, s, fname, spell, len(got)))]
+    except Exception as e:
+        return [('overflowed-field-setup-raises:%s' % type(e).__name__, '%s %s.%s: %s' % (v, s, fname, _exc(e)))]
+    return []
+
+
 def check(case):
+    if case['kind'] == 'overflow':
+        return check_overflow(case)
     if case['kind'] == 'longname':
         return check_longname(case)
     return check_negative(case) if case['kind'] == 'negative' else check_triple(case)
@@ -339,6 +364,10 @@ def _run_version(shard, acc):
                     _emit(acc, {'kind': 'triple', 'level': 'subcomponent', 'via': 'field-path', 'v': v, 's': s, 'fname': fname,
                                 'i': i, 'cname': cname, 'j': j, 'sname': sname, 'k': k, 'A': A, 'B': B, 'C': C, 'val': sval,
                                 'sigkey': 'fieldpath'}, True)
+        base_rows = [r for r in rows if r[1] and T.is_base(v, r[2][2]) and r[3][1] != 0 and s != 'MSH']
+        if base_rows:
+            r = base_rows[rnd.randrange(len(base_rows))]
+            _emit(acc, {'kind': 'overflow', 'v': v, 's': s, 'fname': r[0], 'i': r[1], 'dt': r[2][2]}, True)
         # long names as the FIELDS table of the version spells them (independent of the row the segment table points at)
         fields_tab = T.lib(v).FIELDS
         own = [(r[0], r[1], fields_tab.get(r[0])) for r in rows if r[1]]
